@@ -71,6 +71,54 @@ fn rename(req: &Value) -> Value {
     json!({"prepare": prep, "rename": ren})
 }
 
+fn hover(req: &Value) -> Value {
+    // single-file workspace; hover at every requested offset
+    let (host, file) = AnalysisHost::new_single_file(req["text"].as_str().unwrap());
+    let a = host.snapshot();
+    let mut out = Vec::new();
+    for o in req["offsets"].as_array().unwrap() {
+        let fpos = FilePos::new(file, (o.as_u64().unwrap() as u32).into());
+        match a.hover(fpos) {
+            Ok(Some(h)) => out.push(json!(h.markup)),
+            Ok(None) => out.push(Value::Null),
+            Err(_) => out.push(json!("<cancelled>")),
+        }
+    }
+    json!({"hover": out})
+}
+
+fn goto(req: &Value) -> Value {
+    let (host, file) = AnalysisHost::new_single_file(req["text"].as_str().unwrap());
+    let a = host.snapshot();
+    let mut out = Vec::new();
+    for o in req["offsets"].as_array().unwrap() {
+        let fpos = FilePos::new(file, (o.as_u64().unwrap() as u32).into());
+        match a.goto_definition(fpos) {
+            Ok(Some(ide::GotoDefinitionResult::Targets(ts))) => out.push(Value::Array(
+                ts.iter().map(|t| json!([t.file_id.0, u32::from(t.focus_range.start()), u32::from(t.focus_range.end())])).collect(),
+            )),
+            Ok(_) => out.push(Value::Null),
+            Err(_) => out.push(json!("<cancelled>")),
+        }
+    }
+    json!({"goto": out})
+}
+
+fn complete(req: &Value) -> Value {
+    let (host, file) = AnalysisHost::new_single_file(req["text"].as_str().unwrap());
+    let a = host.snapshot();
+    let mut out = Vec::new();
+    for o in req["offsets"].as_array().unwrap() {
+        let fpos = FilePos::new(file, (o.as_u64().unwrap() as u32).into());
+        match a.completions(fpos, None) {
+            Ok(Some(items)) => out.push(Value::Array(items.iter().map(|i| json!(i.label.as_str())).collect())),
+            Ok(None) => out.push(Value::Null),
+            Err(_) => out.push(json!("<cancelled>")),
+        }
+    }
+    json!({"complete": out})
+}
+
 fn main() {
     panic::set_hook(Box::new(|_| {}));
     let stdin = std::io::stdin();
@@ -86,6 +134,9 @@ fn main() {
         let req: Value = serde_json::from_str(&payload).unwrap_or(Value::Null);
         let res = panic::catch_unwind(|| match cmd.as_str() {
             "rename" => rename(&req),
+            "hover" => hover(&req),
+            "goto" => goto(&req),
+            "complete" => complete(&req),
             _ => json!({"error": "unknown command"}),
         });
         let out = match res {
